@@ -281,7 +281,7 @@ func checkC10(p *Prog, r *Report) {
 		rWrap.OK(fnName(f), f.Pos(), "%s", pi.why)
 	}
 	sort.Strings(wnames)
-	rWrap.AtLeast(10, "wrappers")
+	rWrap.AtLeast(6, "wrappers")
 	r.Note("printf-style wrappers: %s", strings.Join(wnames, ", "))
 
 	/* 1, 3, 4: every call site. */
@@ -348,7 +348,7 @@ func checkC10(p *Prog, r *Report) {
 			}
 		})
 	}
-	rConst.AtLeast(120, "printf-style call sites")
+	rConst.AtLeast(80, "printf-style call sites")
 
 	/* 2: the sink. */
 	checkC10Sink(p, r, rSink, known)
